@@ -42,7 +42,7 @@ pub fn gen_mesh_death(r: &mut Rng, frames: i32) -> Scn {
 pub fn cases(ctx: &Ctx) -> Vec<WCase> {
     let mut out = vec![];
     let mut r = Rng::new(ctx.seed ^ 0xC10);
-    for i in 0..ctx.n(2500, 100_000) {
+    for i in 0..ctx.n(10_000, 500_000) {
         let mut rr = r.fork(i as u64);
         out.push(wcase(format!("mesh-{i}"), gen_mesh_death(&mut rr, 600)));
     }
